@@ -264,12 +264,12 @@ def gen_cli(ctx):
             ctx.sample({"fmt": case["fmt"], "spec": case["spec"], "filter": case["filter"], "sentences": len(case["trees"]), "parts": exp}, cap=2)
     if ctx.shard == 0:
         # more than ten parts (two-digit part numbers, n-fold cross-validation): the parts in NUMERIC order are the corpus
-        for fmt, nparts, ntrees in (("export", 11, 14), ("discobrackets", 12, 30), ("tigerxml", 13, 13)):
+        for fmt, nparts, ntrees in (("export", 11, 14), ("discobrackets", 12, 30), ("tigerxml", 13, 13), ("discobrackets", 0, 260), ("export", 0, 400)):
             trees = []
             for i in range(ntrees):
                 toks = [{"w": "w%d" % i, "p": "NN", "n": 1, "e": "--", "lem": "--", "m": "--"}, {"w": "x", "p": "VB", "n": 2, "e": "--", "lem": "--", "m": "--"}]
                 trees.append({"sid": i + 1, "root": {"l": "VROOT", "e": "--", "lem": "--", "m": "--", "c": [{"l": "S", "e": "--", "lem": "--", "m": "--", "c": toks}]}})
-            spec = "_".join(["1#"] * (nparts - 2) + ["2#", "rest"])
+            spec = "_".join(["1#"] * (nparts - 2) + ["2#", "rest"]) if nparts else ("150#_rest" if ntrees == 260 else "10%_55%_rest")   # parts of more than 100 trees
             case = {"fmt": fmt, "trees": trees, "spec": spec, "filter": None, "src_enc": "utf-8", "dest_enc": "utf-8"}
             try:
                 ctx.run_case(body, case)
